@@ -65,6 +65,11 @@ def check_events(M, C, sizes, tails, candidates, base_case, pfx="anyL", domain=N
     M.true(pfx + "/events", len(writes) >= 2 and len(reads) >= 2, "%d slice assignments, %d table reads recorded" % (len(writes), len(reads)))
     env, _cache = G._z3env()
     prem = _sizes_premise(env, sizes) + list(extra_prem(env) if extra_prem else [])
+    if tid < len(getattr(C, "tables", [])):
+        # the generic reading of 0:1 (and of an integer index 0) takes every extent of the table to be at least 1
+        for d, D in enumerate(C.tables[tid]):
+            st, mdl = G.check_valid(prem, D.z3(env) >= 1)
+            M._rec("%s/table-extent-%d-is-positive[%r]" % (pfx, d, D), st, "z3-lia", G.LAST_SECS[0], detail=mdl or "", cex=_cex(mdl))
     dom = domain or (lambda env_, *ix: z3.BoolVal(True))
     doms = dict(domains or {})
     doms.setdefault(tid, dom)
